@@ -2,7 +2,7 @@ from datetime import datetime
 import itertools
 import uuid
 
-from .helpers import ObjectId, RE_TYPE
+from .helpers import mongodb_to_bool, ObjectId, RE_TYPE
 from . import OperationFailure
 
 import numbers
@@ -91,7 +91,12 @@ class _Filterer(object):
                 continue
             if key == '$expr':
                 parse_expression = self.parse_expression[0]
-                if not parse_expression(search, document, ignore_missing_keys=True):
+                try:
+                    value = parse_expression(search, document, ignore_missing_keys=True)
+                except KeyError:
+                    # The expression resolves to a missing field: it is falsy.
+                    value = None
+                if not mongodb_to_bool(value):
                     return False
                 continue
             if key in _TOP_LEVEL_OPERATORS:
